@@ -50,6 +50,10 @@ def run(c):
                 for spec in pe.timings(c.seed + i, n_random=1, n_pct=0):
                     cases.append((params, spec))
         c.note(f"{nre} histories `take a directory away ; drain ; make one appear at or below its old path` from the K=3 graph")
+    for i, h in enumerate(pe.TWIN_HISTORIES):
+        params = dict(pe.START["twin"], ops=list(h), recursive=True, paced=True, spell="str")
+        for spec in pe.timings(c.seed + i, n_random=1, n_pct=0):
+            cases.append((params, spec))
     c.note(f"{nh} directory-shaping paced histories of <= {K} operations from the TLC graph of FsGen.tla")
     recs = pe.run_cases(c, cases, "TLC histories + probe rounds")
     pe.validate(c, "C02", recs)
